@@ -345,6 +345,8 @@ class Impute(EnvironmentFilter):
             imputations = {}
             impute_binary = {}
             binary_template = {}
+            #a key that never occurs in the fitting interactions is 0 in all of them
+            unseen_imputation = self._get_imputation([0]*len(using_interactions))
             for k,col in unimputed.items():
                 imputation = self._get_imputation(col + [0]*(len(using_interactions)-len(col)))
                 if imputation is not None:
@@ -380,6 +382,8 @@ class Impute(EnvironmentFilter):
                         context[k] = imputations[k]
                         if k in impute_binary:
                             is_missing[impute_binary[k]] = 1
+                    elif v is None and k not in unimputed and k not in unimputable_cols:
+                        context[k] = unseen_imputation
                 context.update(is_missing)
 
             elif is_value:
